@@ -4,8 +4,9 @@ import CssVerif.Lib.Proto
 
 Hand transcription of
 * `CSSStyleSheet._getEncoding` / `_setEncoding` (`cssstylesheet.py:427-451`),
-* `CSSStyleSheet.insertRule` (`cssstylesheet.py:552-884`) for rule objects of every kind except `@namespace`
-  (whose de-duplication through the namespace map belongs to C09/C15 and never touches index 0),
+* `CSSStyleSheet.insertRule` (`cssstylesheet.py:552-940`) for rule objects of every kind; an `@namespace` rule always
+  with a prefix and a URI that no other rule of the sheet has (then it is no "doublette", `_cleanNamespaces` removes
+  nothing and no prefix is in use: the de-duplication through the namespace map belongs to C09/C15),
 * `CSSStyleSheet.deleteRule` (`cssstylesheet.py:496-550`) for an integer index,
 * `CSSCharsetRule._setEncoding` (`csscharsetrule.py:131-164`),
 * the `expected` gate of the callbacks in `_setCssText` (`cssstylesheet.py:171-313`) for `sheet.cssText = …`,
@@ -24,6 +25,7 @@ inductive Rule where
   | unknown
   | imp
   | variables
+  | ns                      -- CSSNamespaceRule with a fresh prefix and a fresh URI
   | style                   -- CSSStyleRule, CSSMediaRule, CSSPageRule, CSSFontFaceRule ("all other")
 deriving DecidableEq, Repr, Inhabited
 
@@ -114,29 +116,44 @@ def insertRule (rules : List Rule) (rule : Rule) (index : Option Nat) (inOrder :
             | _ => 0
           .ok ⟨insertAt rules k .imp, k⟩
       else if idx = 0 && head0Charset then .error .hierarchyRequestErr
-      else if (rules.take idx).any (fun r => r == .variables || r == .style) then .error .hierarchyRequestErr
+      else if (rules.take idx).any (fun r => r == .ns || r == .variables || r == .style) then .error .hierarchyRequestErr
       else .ok ⟨insertAt rules idx .imp, idx⟩
+    | .ns =>                                                         -- :766-845
+      if inOrder then
+        match afterLast (· == .ns) rules with
+        | some k => .ok ⟨insertAt rules k .ns, k⟩
+        | none =>
+          -- after the last @charset / @import, before the first rule of another kind (a given index is ignored)
+          let start := (afterLast (fun r => r.isCharset || r == .imp) rules).getD 0
+          let k := match firstIdx (fun r => r == .variables || r == .style || r == .unknown || r == .comment)
+              (rules.drop start) with
+            | some j => start + j
+            | none => rules.length
+          .ok ⟨insertAt rules k .ns, k⟩
+      else if (rules.drop idx).any (fun r => r.isCharset || r == .imp) then .error .hierarchyRequestErr
+      else if (rules.take idx).any (fun r => r == .variables || r == .style) then .error .hierarchyRequestErr
+      else .ok ⟨insertAt rules idx .ns, idx⟩                         -- fresh prefix: no doublette, nothing to clean
     | .variables =>                                                  -- :803-852
       if inOrder then
         match afterLast (· == .variables) rules with
         | some k => .ok ⟨insertAt rules k .variables, k⟩
         | none =>
           -- a given index is ignored (fix e727728); the scan starts after the last @charset / @import (fix 23bf738)
-          let start := (afterLast (fun r => r.isCharset || r == .imp) rules).getD 0
+          let start := (afterLast (fun r => r.isCharset || r == .imp || r == .ns) rules).getD 0
           let k := match firstIdx (fun r => r == .style || r == .unknown || r == .comment) (rules.drop start) with
             | some j => start + j
             | none => rules.length
           .ok ⟨insertAt rules k .variables, k⟩
-      else if (rules.drop idx).any (fun r => r.isCharset || r == .imp) then .error .hierarchyRequestErr
+      else if (rules.drop idx).any (fun r => r.isCharset || r == .imp || r == .ns) then .error .hierarchyRequestErr
       else if (rules.take idx).any (fun r => r == .style) then .error .hierarchyRequestErr
       else .ok ⟨insertAt rules idx .variables, idx⟩
     | .style =>                                                      -- :855-875
       if inOrder then .ok ⟨rules ++ [.style], rules.length⟩
-      else if (rules.drop idx).any (fun r => r.isCharset || r == .imp || r == .variables) then
+      else if (rules.drop idx).any (fun r => r.isCharset || r == .imp || r == .ns || r == .variables) then
         .error .hierarchyRequestErr
       else .ok ⟨insertAt rules idx .style, idx⟩
 
-/-- `deleteRule(index)` for `0 ≤ index` (`cssstylesheet.py:530-550`; no `@namespace` rules in this model) -/
+/-- `deleteRule(index)` for `0 ≤ index` (`cssstylesheet.py:530-550`; the `@namespace` rules of this model are not in use) -/
 def deleteRule (rules : List Rule) (i : Nat) : Except DomErr (List Rule) :=
   if i < rules.length then .ok (rules.eraseIdx i) else .error .indexSizeErr
 
@@ -180,6 +197,10 @@ def parseAll : List Rule → Nat → List Rule → Except DomErr (List Rule)
     | .unknown => parseAll t (max 1 exp) (acc ++ [.unknown])
     | .imp => if exp > 1 then .error .hierarchyRequestErr else parseAll t 1 (acc ++ [.imp])
     | .variables => if exp > 2 then .error .hierarchyRequestErr else parseAll t 2 (acc ++ [.variables])
+    | .ns =>                                           -- :220-245: `insertRule(rule, _clean=False)`, index `None`
+      if exp > 2 then .error .hierarchyRequestErr
+      else if acc.any (fun r => r == .variables || r == .style) then .error .hierarchyRequestErr
+      else parseAll t 2 (acc ++ [.ns])
     | .style => parseAll t 3 (acc ++ [.style])
 
 /-- `sheet.cssText = …`: when a rule is reported the exception leaves through `finally`, which puts the old
@@ -228,13 +249,13 @@ open CssVerif.Proto
 
 def showRule : Rule → String
   | .charset e => "charset:" ++ encCps e | .comment => "comment" | .unknown => "unknown"
-  | .imp => "import" | .variables => "variables" | .style => "style"
+  | .imp => "import" | .variables => "variables" | .ns => "namespace" | .style => "style"
 
 def rule? (s : String) : Option Rule :=
   match s.splitOn ":" with
   | ["charset", e] => (decCps e).map Rule.charset
   | ["comment"] => some .comment | ["unknown"] => some .unknown | ["import"] => some .imp
-  | ["variables"] => some .variables | ["style"] => some .style
+  | ["variables"] => some .variables | ["namespace"] => some .ns | ["style"] => some .style
   | _ => none
 
 def showErr : DomErr → String
